@@ -220,25 +220,53 @@ Theorem tie_notify : forall has_log has_stat cnt,
     = Some (one has_stat "cache_delete" (VF (FOfZ cnt))).
 Proof. intros [|] [|] cnt; repeat split; reflexivity. Qed.
 
-(* SyncMap.ExpireAll: the callback handed to sync.Map.Range stamps every entry it is given and asks to continue *)
+(* SyncMap.ExpireAll: the callback handed to sync.Map.Range expires every entry it is given — through expireEntry, with
+   the instant read once at the start — counts it and asks to continue *)
 Definition range_callback_of (l : list gstmt) : option (list gstmt) :=
   match l with
   | [_; _; _; GExprS (GCall "c.data.Range" [GFunc body]); _] => Some body
   | _ => None
   end.
 
+Definition eas_prims : prims := fun f args s =>
+  match f, args with
+  | "c.expireEntry", [k; e; VZ t] => Some (VNil, emit "expireEntry" [k; e; VZ t] s)
+  | "$assert:*TraitEntry", [v] => Some (v, s)
+  | _, _ => None
+  end.
+
 Definition run_expire_all_sync (start cnt : Z) :=
   match range_callback_of (gf_body fn_syncMap_ExpireAll) with
   | Some body =>
-      exec_list ea_prims no_fcmp no_loop
+      exec_list eas_prims no_fcmp no_loop
                 (fun vs s => match vs with [VB continue] => Some (eff s, lookup "cnt" (env s), continue) | _ => None end)
                 (fun _ => None) 40 body
-                (mkSt [("startTS", VZ start); ("cnt", VZ cnt); ("value", VPtr true "entry")] [] [] []) (fun _ => None)
+                (mkSt [("startTS", VZ start); ("cnt", VZ cnt); ("value", VPtr true "entry"); ("key", VPtr true "key")] [] [] [])
+                (fun _ => None)
   | None => None
   end.
 
 Theorem tie_expire_all_sync : forall start cnt,
-  run_expire_all_sync start cnt = Some ([("store", [VStr "cacheEntry.E"; VZ start])], Some (VZ (cnt + 1)), true).
+  run_expire_all_sync start cnt =
+  Some ([("expireEntry", [VPtr true "key"; VPtr true "entry"; VZ start])], Some (VZ (cnt + 1)), true).
+Proof. intros; reflexivity. Qed.
+
+(* syncMap.expireEntry (go1.20+): the entry is not re-stamped in place but REPLACED, by CompareAndSwap against the very
+   entry Range handed out, with a copy that differs in E only (K, V, the usage counter loaded atomically).  A cleanup
+   that has judged the old entry then fails its CompareAndDelete (SyncMapK1.k1_swap_linearizable). *)
+Definition run_expire_entry (ts c : Z) : option (list effect) :=
+  run (fun f args s => match f, args with
+                       | "atomic.LoadInt64", [VRef "e.C"] => Some (VZ c, s)
+                       | "c.data.CompareAndSwap", [k; old; new] => Some (VB true, emit "CompareAndSwap" [k; old; new] s)
+                       | _, _ => None end)
+      no_fcmp no_loop (fun _ s => Some (eff s)) (fun _ => None) fn_syncMap_expireEntry
+      [VPtr true "c"; VPtr true "key"; VPtr true "e"; VZ ts] [("e.K", VPtr true "K"); ("e.V", VPtr true "V")]
+      (fun s => Some (eff s)).
+
+Theorem tie_sync_expire_entry : forall ts c,
+  run_expire_entry ts c =
+  Some [("CompareAndSwap", [VPtr true "key"; VPtr true "e";
+                            VRec "TraitEntry" [("K", VPtr true "K"); ("V", VPtr true "V"); ("E", VZ ts); ("C", VZ c)]])].
 Proof. intros; reflexivity. Qed.
 
 (* ---- Load / Store: Read and Write under the background context (no TTL, no SkipRead) ---- *)
